@@ -7,7 +7,7 @@
    id for the arguments of an mpe call.  The RESULT of a run is the uninterpreted term [Run c p d f]: "what class c
    computes from parameters p on data d sampled at f".  Nothing else can enter a result, so "the result depends only
    on the algorithm's own parameters and the data bound when it was added" is a statement about terms. *)
-From Coq Require Import String List Arith Bool.
+From Coq Require Import String Ascii List Arith Bool.
 From PyOMA.Base Require Import Show.
 Import ListNotations.
 
@@ -144,9 +144,9 @@ Definition targets (o:op) (a:name) : bool :=
 Definition is_add (o:op) (a:name) : bool := match o with Add b _ _ => Nat.eqb b a | _ => false end.
 
 (* fold used to state run_all_is_fold *)
-Definition run_names (s:setup) (ns:list name) : option err * setup :=
-  fold_left (fun (acc:option err * setup) n => match fst acc with Some _ => acc | None => step (snd acc) (RunByName n) end)
-            ns (None, s).
+Definition run_step (acc:option err * setup) (n:name) : option err * setup :=
+  match fst acc with Some _ => acc | None => step (snd acc) (RunByName n) end.
+Definition run_names (s:setup) (ns:list name) : option err * setup := fold_left run_step ns (None, s).
 
 (* ---- MultiSetup_PoSER._init_setups ---- *)
 Inductive astate := NotRun | Ran | Extracted.   (* result None | result with Fn None | result with Fn *)
@@ -200,3 +200,39 @@ Definition showPoser (cfgs:list (list setup_desc * nat)) : string :=
 (* PoSER on the final states of histories *)
 Definition showPoserH (d:DataId) (f:Fs) (cfgs:list (list (list op) * nat)) : string :=
   showL (fun c => showON (poser_check (map (fun h => desc_of (exec h (new_setup d f))) (fst c)) (seq 0 (snd c)))) " " cfgs.
+
+(* ---- readers used by the harness: a batch of cases is ONE string literal (numbers separated by blanks, cases by "|"),
+   because elaborating large list literals dominates the run time.  A bug here shows up as a disagreement. *)
+Definition digit_of (c:Ascii.ascii) : option nat :=
+  let n := Ascii.nat_of_ascii c in if Nat.leb 48 n && Nat.leb n 57 then Some (n - 48) else None.
+Definition push_num (cur:option nat) (row:list nat) : list nat := match cur with Some n => n :: row | None => row end.
+Fixpoint read_rows (s:string) (cur:option nat) (row:list nat) (rows:list (list nat)) : list (list nat) :=
+  match s with
+  | EmptyString => rev (rev (push_num cur row) :: rows)
+  | String c t =>
+    match digit_of c with
+    | Some d => read_rows t (Some (match cur with Some n => 10 * n + d | None => d end)) row rows
+    | None => if Ascii.eqb c "|"%char then read_rows t None [] (rev (push_num cur row) :: rows)
+              else read_rows t None (push_num cur row) rows
+    end
+  end.
+Definition rows_of (s:string) : list (list nat) := read_rows s None [] [].
+Definition unshift (n:nat) : option nat := match n with 0 => None | S k => Some k end.
+(* op codes: 1 i c p+1|0 = Add, 2 i = RunByName, 3 = RunAll, 4 i args = Mpe, 5 d+1|0 f+1|0 = Rebind, 6 = SaveLoad *)
+Fixpoint decode_ops (l:list nat) : list op :=
+  match l with
+  | 1 :: i :: c :: p :: t => Add i c (unshift p) :: decode_ops t
+  | 2 :: i :: t => RunByName i :: decode_ops t
+  | 3 :: t => RunAll :: decode_ops t
+  | 4 :: i :: a :: t => Mpe i a :: decode_ops t
+  | 5 :: d :: f :: t => Rebind (unshift d) (unshift f) :: decode_ops t
+  | 6 :: t => SaveLoad :: decode_ops t
+  | _ => []
+  end.
+Definition showHistsS (d:DataId) (f:Fs) (s:string) : string := showHists d f (map decode_ops (rows_of s)).
+(* a PoSER row: indices into the option table, then the number of names *)
+Definition cfg_of_row {A} (opts:list A) (dflt:A) (row:list nat) : list A * nat :=
+  (map (fun i => nth i opts dflt) (removelast row), last row 0).
+Definition showPoserS (opts:list setup_desc) (s:string) : string := showPoser (map (cfg_of_row opts []) (rows_of s)).
+Definition showPoserHS (d:DataId) (f:Fs) (hs:string) (s:string) : string :=
+  showPoserH d f (map (cfg_of_row (map decode_ops (rows_of hs)) []) (rows_of s)).
